@@ -410,7 +410,7 @@ static void ph_two(void *u) {
         for (int64_t cmb = 1; cmb < combos; cmb++)
             for (int o = 0; o < NORDERS; o++, idx++) {
                 if (!mc_mine(idx)) continue;
-                if ((idx & 255) == 0 && mc_expired()) return;
+                if (mc_tick(255)) return;
                 MC_RUN(which, H(g_par.v[i]), I(cmb), I(o));
             }
     }
